@@ -80,8 +80,50 @@ def key_request_failure(r):
         roots.close()
 
 
+def redundant_disconnect(r):
+    """A failure at the network layer on the way down: the connection breaks (noticed by the dispatcher, which reports it), and then a
+    redundant disconnect request follows (application clean-up, a ping timeout of the dying connection) on a dispatcher that - like the
+    socket dispatcher - does not call back for a connection that is already closed.  The stack stays usable: a later connect request is
+    honoured and the login goes through."""
+    from harness.props import c16
+    roots = e2ekit.Roots()
+    try:
+        for when in ("before-loop", "after-loop"):
+            r.case(("redundant-disconnect", when))
+            r.cov["traces_validated_against_impl"] += 1
+            w = c16.World(True, False)
+            w.socket_like = True
+            w.connect_via_event = True
+            hist = [{"name": "ConnectRequest"}, {"name": "DispatcherConnected"}, {"name": "Success"}, {"name": "ConnectionLost", "why": "socket-error"}]
+            hist += ([{"name": "DisconnectRequest"}, {"name": "LoopStep"}] if when == "before-loop" else [{"name": "LoopStep"}, {"name": "DisconnectRequest"}, {"name": "LoopStep"}])
+            hist += [{"name": "ConnectRequest"}, {"name": "DispatcherConnected"}, {"name": "Success"}]
+            try:
+                w.start()
+                ok = True
+                for i, act in enumerate(hist):
+                    if i == len(hist) - 2 and len(w.dispatchers) < 2:
+                        ok = False          # the second connect request created no connection: nothing to bring up
+                        break
+                    w.do(act)
+                connects = [x for x in w.wire if x[0] == "connect"]
+                if not ok or len(connects) != 2 or w.app.count("success") != 2 or not w.net.connected:
+                    r.violation("wedged:redundant-disconnect:%s" % when, "history %s: the connect request after the redundant disconnect is not honoured (connects %d, application saw %s, connected %s)" % (
+                        [h["name"] for h in hist], len(connects), w.app, w.net.connected), {"history": hist})
+            except sched.Deadlock as e:
+                r.violation("wedged:redundant-disconnect:%s" % when, "history %s hangs: %s" % ([h["name"] for h in hist], e), {"history": hist})
+            except core.MachineryError:
+                raise
+            except Exception as ex:
+                r.violation("exception:redundant-disconnect:%s" % type(ex).__name__, "history %s raised %r" % ([h["name"] for h in hist], ex), {"history": hist})
+            finally:
+                w.close()
+    finally:
+        roots.close()
+
+
 def extras(r):
     keepalive_callback_failure(r)
+    redundant_disconnect(r)
     key_request_failure(r)
 
 
